@@ -12,7 +12,7 @@ use miniz_oxide::inflate::TINFLStatus;
 use miniz_oxide::{DataFormat, MZFlush};
 use serde_json::{json, Value};
 
-pub const ENTRY: &[&str] = &["flat", "ring32k", "flat-ignore-adler", "inflate", "inflate-ignore-adler", "mz_inflate", "mz_uncompress", "tinfl_decompress", "tinfl_mem_to_mem", "flat-reused", "inflate-reused", "flat-reused-abandoned", "flat-reused-failed", "inflate-reused-abandoned", "inflate-finish", "mz_inflate-finish"];
+pub const ENTRY: &[&str] = &["flat", "ring32k", "flat-ignore-adler", "inflate", "inflate-ignore-adler", "mz_inflate", "mz_uncompress", "tinfl_decompress", "tinfl_mem_to_mem", "flat-reused", "inflate-reused", "flat-reused-abandoned", "flat-reused-failed", "inflate-reused-abandoned", "inflate-finish", "mz_inflate-finish", "mz_inflate-reinit"];
 
 /// A complete small stream of the *other* framing, decoded by the object before it is
 /// re-initialised and used for the stream under test ("which entry point" includes a recycled decoder).
@@ -159,6 +159,57 @@ pub fn consumed_via(ep: &str, s: &GenStream, data: &[u8], ch: usize) -> Result<(
             }
             Ok(())
         }
+        "mz_inflate-reinit" => unsafe {
+            // a container walker that re-initialises one live mz_stream per member (no mz_inflateEnd in
+            // between): first a different member, then mz_inflateInit2 again, then the stream under test
+            let mut zs = capi::new_stream();
+            let wb = if s.zlib { 15 } else { -15 };
+            if miniz_oxide_c_api::mz_inflateInit2(&mut zs, wb) != 0 {
+                return Err("mz_inflateInit2 failed".into());
+            }
+            let (prev, _) = reuse_history_bytes(0, !s.zlib);
+            let _ = capi::stream_call(&mut zs, true, &prev, 0, prev.len(), 4096, 0, Place::End);
+            let rc = miniz_oxide_c_api::mz_inflateInit2(&mut zs, wb);
+            if rc != 0 {
+                miniz_oxide_c_api::mz_inflateEnd(&mut zs);
+                return Err(format!("mz_inflateInit2 on a live stream returned {}", rc));
+            }
+            let mut out = vec![];
+            let mut ip = 0;
+            let pts: Vec<usize> = cuts_of(ch, data.len()).into_iter().chain(std::iter::once(data.len())).collect();
+            let mut ended = false;
+            'o3: for &p in &pts {
+                let mut guard = 0;
+                loop {
+                    let o = capi::stream_call(&mut zs, true, data, ip, p - ip, n + 64, 0, Place::End).map_err(|e| format!("mz_inflate accounting: {}", e))?;
+                    ip += o.consumed;
+                    out.extend_from_slice(&o.out);
+                    if o.ret == 1 {
+                        ended = true;
+                        break 'o3;
+                    }
+                    if o.ret == -5 && ip >= p {
+                        break;
+                    }
+                    if o.ret < 0 {
+                        miniz_oxide_c_api::mz_inflateEnd(&mut zs);
+                        return Err(format!("mz_inflate on a re-initialised stream returned {}", o.ret));
+                    }
+                    guard += 1;
+                    if ip >= p || guard > 100_000 {
+                        break;
+                    }
+                }
+            }
+            let total_in = zs.total_in as usize;
+            let total_out = zs.total_out as usize;
+            miniz_oxide_c_api::mz_inflateEnd(&mut zs);
+            check("mz_inflate on a re-initialised stream", ended, ip, &out)?;
+            if total_in != want || total_out != n {
+                return Err(format!("mz_inflate on a re-initialised stream: total_in {} / total_out {} consumed-and-produced by this member, expected {} / {}", total_in, total_out, want, n));
+            }
+            Ok(())
+        },
         "mz_inflate-finish" => unsafe {
             // first piece with MZ_NO_FLUSH, then MZ_FINISH with 7-byte output windows: every
             // MZ_BUF_ERROR return in between has consumed input and delivered bytes
